@@ -426,7 +426,20 @@ def gen_case(rng, tier, dim):
     depth = rng.randint(1, 2) if (tier == "quick" or dim == 3) else rng.randint(1, 3)
     if dim == 3 and tier == "quick":
         depth = 1
-    shape, tree = g.top(depth)
+    # derivative order limits (sympy's cost explodes with the order on trigonometric mappings and in 3-D)
+    if mapping["type"] == "symbolic":
+        omax = {1: 4, 2: 3, 3: 2}[dim]
+    elif mapping["type"] == "user" or mapping.get("cls") in ("IdentityMapping", "AffineMapping"):
+        omax = {1: 3, 2: 2, 3: 1}[dim]
+    else:
+        omax = {1: 2, 2: 2, 3: 1}[dim]
+    if tier != "quick":
+        omax += 1
+    for _ in range(20):
+        shape, tree = g.top(depth)
+        if dorder(tree) <= omax:
+            break
+        g.used_gpow = g.used_exp = False
     used = tree_funcs(tree)
     spaces = {f: s for f, s in spaces.items() if f in used} or {"u": spaces["u"]}
     return {"dim": dim, "mapping": mapping, "family": family, "spaces": spaces, "tree": tree, "order": order,
@@ -439,7 +452,7 @@ def est_cost(c):
     f = 1.0
     if m["type"] == "catalogue":
         f = CATALOGUE[m["cls"]][2]
-    return base * f * (1 + 0.15 * tree_size(c["tree"])) * (1 + 0.7 * max(0, dorder(c["tree"]) - 1))
+    return base * f * (1 + 0.15 * tree_size(c["tree"])) * (2.2 ** max(0, dorder(c["tree"]) - 1))
 
 
 # ------------------------------------------------------------------------------------------ shrinking
@@ -572,8 +585,8 @@ def main(run, replay=None):
                     c3 = copy.deepcopy(c)
                     c3["dim"] = 3
                     cases.append(c3)
-        plan = {1: 50, 2: 125, 3: 14} if quick else {1: 300, 2: 900, 3: 160}
-        budget = 1500.0 if quick else 20000.0        # estimated CPU seconds of implementation time
+        plan = {1: 50, 2: 125, 3: 14} if quick else {1: 250, 2: 700, 3: 80}
+        budget = 1500.0 if quick else 7000.0        # estimated CPU seconds of implementation time
         import os
         if os.environ.get("C03_PLAN"):               # development aid: "1:20,2:30,3:0"
             plan = {int(a.split(":")[0]): int(a.split(":")[1]) for a in os.environ["C03_PLAN"].split(",")}
@@ -595,7 +608,7 @@ def main(run, replay=None):
         batches[b].append(i)
         load[b] += est_cost(cases[i])
     batches = [b for b in batches if b]
-    limit = 150 if quick else 600
+    limit = 150 if quick else 300
     outs = run.impl_parallel("C03_impl", [{"cases": [cases[i] for i in b], "case_timeout": limit} for b in batches],
                              timeout=3000 if quick else 20000)
     results = [None] * len(cases)
@@ -638,7 +651,7 @@ def main(run, replay=None):
         name = "cases_C03_%d" % (k // per)
         files[name] = HEADER + "".join("Eval vm_compute in [%s].\n" % t for t in terms[k:k + per])
         index.append((name, owners[k:k + per]))
-    coq_out = run.coq_eval_many(files, timeout=25 if quick else 240)
+    coq_out = run.coq_eval_many(files, timeout=25 if quick else 120)
     code = {}
     cases_file_problems = 0
     for name, own in index:
@@ -728,7 +741,9 @@ def main(run, replay=None):
             if kind == "raised":
                 return not r["out"]["err"].startswith("constructor:")
             return False
-        return kind == "wrong-value" and r.get("oracle", {}).get("ok") is False
+        # same failure reason only: a shape mismatch of an (ill-typed) shrunk candidate is not the reported defect
+        orc = r.get("oracle", {})
+        return kind == "wrong-value" and orc.get("ok") is False and (orc.get("info") or {}).get("why") == "value"
 
     import os
     if os.environ.get("C03_DEBUG"):
